@@ -1031,9 +1031,13 @@ class Consumer(object):
 
         proc_block_begin = 0
         proc_block_end = proc_block_size
+        # The life (start() call) these messages were fetched for: a callback
+        # of the start Deferred may stop() and start() us again before we are
+        # resumed, and nothing of this block belongs to the new life.
+        start_d = self._start_d
 
         while proc_block_begin < len(messages) and not self._shuttingdown:
-            if self._stopping or self._start_d is None or self._start_d.called:
+            if self._stopping or self._start_d is None or self._start_d is not start_d or self._start_d.called:
                 # We are being stopped (stop() cancelled the processor's
                 # Deferred and so resumed us), or we have already reported
                 # a failure (e.g. of the processor) to our user: deliver,
@@ -1054,7 +1058,7 @@ class Consumer(object):
             # do this here, in addition to in stop() because the processor func
             # itself could have called stop(), and then when it returned, we re-set
             # self._processor_d to the return of maybeDeferred().
-            if self._stopping or self._start_d is None:
+            if self._stopping or self._start_d is None or self._start_d is not start_d:
                 d.cancel()
                 break
             else:
@@ -1064,7 +1068,7 @@ class Consumer(object):
 
         # We're done with this block. If we had another fetch result
         # waiting, this callback will trigger the processing thereof.
-        if self._msg_block_d:
+        if self._msg_block_d and (self._start_d is start_d or self._start_d is None):
             _msg_block_d, self._msg_block_d = self._msg_block_d, None
             _msg_block_d.callback(True)
 
